@@ -14,5 +14,6 @@ if ! cargo build --release --offline --bins; then
   done
 fi
 cd ../..
+(cd harness/vh-http && cargo build --release --offline) || echo "WARNING: vh-http (C35) does not build"
 python3 tools/sany_all.py || echo "WARNING: some TLA+ modules do not parse (see above)"
 exit 0
